@@ -325,7 +325,7 @@ def names_of(gs):
 
 def eval_coq(cases, dlow, dmed):
     jobs = []
-    shard = 100
+    shard = min(300, max(100, -(-len(cases) // 12)))       # one round of the 12 workers when possible
     for off in range(0, len(cases), shard):
         items = ["run_lcom %s %s" % (coq_opts(c, dlow, dmed), cg.class_coq(c["cls"])) for c in cases[off:off + shard]]
         jobs.append(("C14_cases_%d" % off, REQ, "Definition cases := %s.\nEval vm_compute in cases.\n" % cg.clist(items)))
